@@ -94,3 +94,11 @@ package ports
 //@   records pxEndpoints = endpoints
 //@   records pxPath = r.URL.Path
 //@   records pxBody = old(ghost(r.Body).remaining)
+
+// ---- C19 (translator scope): what the handlers report to the statistics collector about a translated request
+//@ ghost var trCount int
+//@ ghost var trSuccess bool
+//@ interface StatsCollector.RecordTranslatorRequest
+//@   modifies gvar trCount, gvar trSuccess
+//@   records trCount = old(trCount) + 1
+//@   records trSuccess = event.Success
